@@ -205,10 +205,10 @@ PROPS = {
         trusted=REPL_TRUSTED,
     ),
     "C09": dict(
-        theorems=["HC.C09.queue_total", "HC.C09.climb_total", "HC.C09.verify_tree_total_partial"],
+        theorems=["HC.C09.queue_total", "HC.C09.climb_total", "HC.C09.verify_tree_total_partial", "HC.C09.verify_upgrade_total", "HC.C09.verify_proof_total"],
         bridge_modules=["HC.Bridge.Stores"], bridging=STORES_BRIDGE,
         runs=_c09_runs,
-        partial="verify_upgrade and create_valueless_proof are not proved total; their panic sites are listed in HC/Model/Proof.lean and exercised by the runs (no panic/abort/hang observed; a watchdog turns non-termination into a reported hang)",
+        partial="proved: verify_proof (verify_tree + verify_upgrade + the comparison with the stored node) returns a value or an error for every proof, tree state and key - no panic, no loop without a bound. Not proved (validated by the run: arbitrary requests, alterations, added sections, arbitrary proofs under catch_unwind + watchdog): create_valueless_proof and the application step after verification",
         rule="cores: empty, one block, multi-root, with cleared blocks; request tuples with each of block/hash/seek/upgrade absent or at boundary values {0,1,2,len-1,len,len+1,2len,2len+1,2len+2,3,7,2^32,2^40-1,len/2}, on writer and replica; proofs: the C04 alteration set; every call under catch_unwind with a 60 s watchdog; follow-up append/probe on the same core; outcome class compared with the Lean model",
         trusted=REPL_TRUSTED, assumptions=["numeric fields below 2^40"],
     ),
